@@ -293,9 +293,17 @@ fn range_offset_bound(
     } else {
         cur + k as f64
     };
+    // NULL keys that sort LAST lie after every non-NULL key: they are not
+    // removed by a start bound (SQL:2011 7.11 GR 5.b.ii), so the frame
+    // starts at the first of them when no non-NULL key is inside the bound.
+    let nulls_last = !matches!(ctx.w.order_by[0].nulls, NullOrdering::NullsFirst);
     for j in part.clone() {
         match range_key(arr, j) {
-            None => continue,
+            None => {
+                if nulls_last {
+                    return Ok(j);
+                }
+            }
             Some(v) => {
                 let inside = if !desc { v >= limit } else { v <= limit };
                 if inside {
@@ -324,10 +332,17 @@ fn range_offset_end(
     } else {
         cur + k as f64
     };
+    // NULL keys that sort FIRST lie before every non-NULL key: they are not
+    // removed by an end bound, so they stay inside the frame.
+    let nulls_first = matches!(ctx.w.order_by[0].nulls, NullOrdering::NullsFirst);
     let mut end = part.start;
     for j in part.clone() {
         match range_key(arr, j) {
-            None => continue,
+            None => {
+                if nulls_first {
+                    end = j + 1;
+                }
+            }
             Some(v) => {
                 let inside = if !desc { v <= limit } else { v >= limit };
                 if inside {
